@@ -14,6 +14,14 @@ func (e *Enc) setResult(res *ssa.Call, vals []Val) {
 	if res == nil {
 		return
 	}
+	if e.token {
+		rs := res.Call.Signature().Results()
+		for i, v := range vals {
+			if i < rs.Len() {
+				e.byteSliceEnters(e.cur, v, rs.At(i).Type(), e.reach[e.curBlock])
+			}
+		}
+	}
 	n := res.Call.Signature().Results().Len()
 	switch {
 	case n == 0:
@@ -232,8 +240,24 @@ func (e *Enc) havocCallWritesAt(h *Heap, writes map[string]bool, callee *ssa.Fun
 			}
 		}
 		sort.Strings(except)
+		if len(except) == 0 && valueSort(e.heapSort[k]) {
+			// The callee writes cells of this heap only in memory it allocates itself. Nothing has been said so far about
+			// cells that are not allocated yet, so the heap term can stay: the values the callee leaves in its own
+			// allocations are the (so far unconstrained) values of the term at those addresses. Only for heaps whose
+			// cells hold no references: facts about loaded references (watermarks, closedness) speak about all cells.
+			continue
+		}
 		e.havocKeyFramed(h, k, apre, except)
 	}
+}
+
+// valueSort: heap cells of this sort hold no references.
+func valueSort(s string) bool {
+	switch s {
+	case "Int", "Bool", "Real", "B", "Str":
+		return true
+	}
+	return false
 }
 
 func (e *Enc) defaultCall(ins ssa.Instruction, sig *types.Signature, res *ssa.Call, writes map[string]bool, what string) {
@@ -291,6 +315,9 @@ func (e *Enc) applyContract(ins ssa.Instruction, ct *Contract, callee *ssa.Funct
 	for _, en := range ct.Ensures {
 		if t, ok := e.evalClause(ct, en.Expr, envPost); ok {
 			e.assert(implies(e.reach[e.curBlock], t))
+			if en.Define {
+				e.trustedUsed["abstraction definition on "+name+": "+en.Expr.String()] = true
+			}
 		}
 	}
 	for _, fr := range ct.Fresh {
@@ -398,7 +425,7 @@ func (e *Enc) havocKeyExcept(h *Heap, key, arr string) {
 		return
 	}
 	old := e.heapGet(h, key, srt)
-	n := e.fresh("H_"+sanitize(key), "(Array Ref "+srt+")")
+	n := e.fresh("H_"+sanitize(key), arrSort(key, srt))
 	e.assert(fmt.Sprintf("(forall ((r Ref)) (! (=> (not (and ((_ is elem) r) (= (ebase r) %s))) (= (select %s r) (select %s r))) :pattern ((select %s r))))", arr, n, old, n))
 	h.m[key] = n
 }
@@ -522,8 +549,27 @@ func (e *Enc) builtin(ins ssa.Instruction, b *ssa.Builtin, c *ssa.CallCommon, re
 		}
 		st := under(c.Args[0].Type()).(*types.Slice)
 		e.byteWriteCheck(ins, c.Args[0], dst, "copy", app(">", n, "0"))
+		if e.token && isByteSlice(c.Args[0].Type()) {
+			var sb string
+			if src.S == "Str" {
+				sb = app("bstr", src.T)
+			} else {
+				sb = e.tokBytes(h, src.T)
+			}
+			db := e.tokBytes(h, dst.T)
+			nn := e.fresh("copyn", "Int")
+			e.assert(app("=", nn, n))
+			defer func() {
+				e.setBytes(e.cur, dst.T, app("bcat", app("bsub", sb, "0", nn), app("bsub", db, nn, app("slen", dst.T))))
+			}()
+		}
 		if e.precise && src.S == "Slice" {
 			e.copyCells(h, st.Elem(), dst, "0", src, "0", n)
+		} else if e.token && isByteSlice(c.Args[0].Type()) {
+			e.heapGet(h, "T:uint8", "Int")
+			e.noCouple = true
+			e.havocKeyFramed(h, "T:uint8", e.allocCounter(h), []string{e.rootOf(app("sarr", dst.T))})
+			e.noCouple = false
 		} else {
 			for _, k := range e.w.keysOfType(st.Elem()) {
 				e.havocKey(h, k)
@@ -607,6 +653,15 @@ func (e *Enc) appendCall(ins ssa.Instruction, c *ssa.CallCommon, res *ssa.Call, 
 		e.define(res, r)
 	}
 	rv := Val{r, "Slice"}
+	if e.token && isByteSlice(c.Args[0].Type()) {
+		var tb string
+		if t.S == "Str" {
+			tb = app("bstr", t.T)
+		} else {
+			tb = e.tokBytes(pre, t.T)
+		}
+		defer func() { e.setBytes(e.cur, rv.T, app("bcat", e.tokBytes(pre, s.T), tb)) }()
+	}
 	if e.precise && t.S == "Slice" {
 		switch under(st.Elem()).(type) {
 		case *types.Struct, *types.Array:
@@ -627,6 +682,12 @@ func (e *Enc) appendCall(ins ssa.Instruction, c *ssa.CallCommon, res *ssa.Call, 
 				nh, inRes, k, s.T, fromS, fromT, old, nh))
 			h.m[key] = nh
 		}
+	} else if e.token && isByteSlice(c.Args[0].Type()) {
+		// token mode: only cells of the target's backing array may change; slice contents are tracked in $bytes
+		e.heapGet(h, "T:uint8", "Int")
+		e.noCouple = true
+		e.havocKeyFramed(h, "T:uint8", e.allocCounter(h), []string{e.rootOf(app("sarr", s.T))})
+		e.noCouple = false
 	} else {
 		for _, k := range e.w.keysOfType(st.Elem()) {
 			e.havocKey(h, k)
